@@ -225,6 +225,36 @@ func runC11(c *fw.Ctx) {
 					}
 				}
 			}
+			if r.Chance(1, 4) && !p.failed {
+				// a derived structure (user type embedding an Object / List) stored in the tree: a container of that kind
+				var d *model.Node
+				if r.Bool() {
+					d = p.h.NewObj(NewDObject("own", 1))
+					d.M["own"] = model.Int(1)
+				} else {
+					d = p.h.NewList(NewDDList(1, "two"))
+					d.E = []model.Val{model.Int(1), model.Str("two")}
+				}
+				p.trace = append(p.trace, d.Name()+" = derived structure "+d.Show())
+				at := genWritePath(c, r, root)
+				c11Set(p, root, at, model.Ref(d))
+				c.Count("derived_structures_in_tree")
+				// write through it: it must be reused, not replaced
+				if cur, st := model.Resolve(root, at); st == model.Resolved && cur.Ref == d && !p.failed {
+					if d.K == spec.Obj {
+						c11Set(p, root, at+".added", model.Int(2))
+						c11Set(p, root, at+".sub#1", model.Str("deep"))
+					} else {
+						c11Set(p, root, at+"#4", model.Int(2))
+						c11Set(p, root, at+"#0.k", model.Str("deep"))
+					}
+					if !p.failed && d.Real != nil {
+						if cur2, st2 := model.Resolve(root, at); st2 != model.Resolved || cur2.Ref != d {
+							p.fail("derived-intermediate-replaced", "the stored derived structure stays in its slot", "it was replaced")
+						}
+					}
+				}
+			}
 			for w := 0; w < writes && !p.failed; w++ {
 				if r.Chance(3, 4) {
 					path := genWritePath(c, r, root)
